@@ -103,6 +103,9 @@ def case_c(case):
     I = new_interp(P)
     res = {"paths": 0, "violations": [], "case": list(case)}
     cfg = {"prefix": "Op"} if (prefix and lang in ("swift", "kotlin")) else {}
+    if prefix and lang == "go":
+        # an acronym the symbolic name may coincide with: `Abc` is then written `ABC` - in the definition and in every reference
+        cfg = {"uppercase_acronyms": ["ABC"]}
 
     def syms():
         return [z3.BitVec("r%d" % i, 32) for i in range(3)]
@@ -408,12 +411,14 @@ def run(rep, tier, only=None):
                 for pi, pos in enumerate(POSITIONS):
                     if pos == "self_generic" and bk != "generic_struct":
                         continue
-                    for prefix in ((False, True) if lang in ("swift", "kotlin") else (False,)):
-                        if tier == "quick" and prefix and (pi + sd) % 3 != 0:
+                    for prefix in ((False, True) if lang in ("swift", "kotlin", "go") else (False,)):
+                        if tier == "quick" and prefix and (pi + sd) % 3 != 0 and not (lang == "go" and ren and pos in ("map_both", "generic_arg", "generic_two")):
+                            continue
+                        if lang == "go" and prefix and not ren:
                             continue
                         cases.append((lang, bk, ren, pos, prefix))
     rep.bounds = {"referenced item": B_KINDS, "rename": "absent / present with a symbolic 3-char name [A-Z][a-z][a-z]", "reference positions": POSITIONS,
-                  "languages": LANGS, "prefix": "Swift/Kotlin with and without prefix Op (quick: rotated third with prefix)"}
+                  "languages": LANGS, "prefix": "Swift/Kotlin with and without prefix Op (quick: rotated third with prefix); Go with and without uppercase_acronyms = [ABC] (the symbolic name may be Abc)"}
     rep.outside = ["references across crates (multi-file; C14)", "more than one referring item", "const types"]
     rep.assumptions = ["tokens inside comments / docstrings may quote the Rust name and are ignored", "a token denotes B if it contains the (symbolic) new name or the original name; tokens are grouped by the text following the name"]
     reported = set()
@@ -429,7 +434,9 @@ def run(rep, tier, only=None):
             continue
         for v in r["violations"][:2]:
             sig = {"lang": case[0], "b_kind": case[1], "renamed": case[2], "position": case[3], "kind": v["kind"], "role": v.get("role")}
-            key = (case[0], case[1], case[2], case[3], v["kind"], v.get("role"))
+            if case[0] == "go" and case[4]:
+                sig["acronyms"] = True
+            key = (case[0], case[1], case[2], case[3], v["kind"], v.get("role"), case[4])
             if key in reported:
                 continue
             name = v.get("name") or "Ren"
@@ -437,6 +444,8 @@ def run(rep, tier, only=None):
             cfg = dict(bharness.DEFAULT_CFG.get(case[0], {}))
             if case[4] and case[0] in ("swift", "kotlin"):
                 cfg["prefix"] = "Op"
+            if case[4] and case[0] == "go":
+                cfg["uppercase_acronyms"] = ["ABC"]
             real = nat.ask({"op": "generate", "lang": case[0], "files": [{"source": src}], "config": cfg})
             rep.validated += 1
             out = real.get("out", {}).get("", None)
